@@ -511,7 +511,8 @@ MANIFEST = dict(
          'every operation of begin/store/vote was made to fail once; abort phase, foreign-transaction call, quota and '
          'metadata lengths are symbolic selectors/values.  After each failed or aborted attempt the data file must be '
          'byte-identical, all revision queries unchanged, the commit lock free, and a following commit and reopen correct.',
-    note='single fault per run (ENOSPC, one-shot); faults inside tpc_finish excluded (documented: storage closes); history '
-         'templates; real CPython buffering between storage and the in-memory raw file; blob directory covered by C13.',
+    note='single fault per run (ENOSPC, one-shot); faults of the I/O of tpc_finish itself are in C01 finish_fault; history '
+         'templates; real CPython buffering between storage and the in-memory raw file; blob directory covered by C13; late faults (tpc_abort operations, raising finish callback incl. DemoStorage) in fault_late / '
+         'abort_phase with strict lock stubs (a self-deadlock is reported, not hung); 1 open known finding (failing truncate in tpc_abort).',
     design_ref='DESIGN.md section 4, C05',
 )
